@@ -30,6 +30,9 @@ ENGINES["mut"] = {"path": "harness/src/mutate.rs",
 ENGINES["alloc"] = {"path": "harness/src/alloc.rs",
     "kind": "counting global allocator armed exactly around each unwind_frame / iterator next made with MustNotAllocateDuringUnwind (zero alloc/dealloc/realloc events demanded; the allocating call chain is named from a backtrace) and, on the same module and thread state, comparison with MayAllocateDuringUnwind (result, registers, cache statistics); modules of every format: three DWARF presentations with random rows incl. unevaluable and evaluable expression CFAs and DW_CFA_(val_)expression register rules, Mach-O compact unwind (all opcode kinds, text present/absent, DWARF-deferred), PE (prolog/body/epilog addresses, chained infos), no data; every probe optionally repeated (cache hit)"}
 
+ENGINES["feat"] = {"path": "harness/src/feat.rs + featrun/ (public API only, built once per feature subset)",
+    "kind": "all 8 subsets of {std, macho, pe}: cargo build --no-default-features --features <subset> of a crate using framehop's public API (a build failure is a violation; replay = feature set + compiler output); one battery of DWARF / frame-pointer histories as raw section bytes (both architectures, both policies, same-address repeats with failing then sane thread states, removals, iterator walks, max_known_code_address) executed by all 8 binaries and in-process by the default build - all answers incl. cache statistics must be identical; and, built with the verification cfg, the unwind-data variant Module::new selects for all 128 offers of sections x 8 subsets vs the Lean model selectUnwindData"}
+
 NOT_APPLICABLE = {}
 
 _NOTE = ("Trusted: Lean kernel; axioms propext/Classical.choice/Quot.sound only (audited per theorem on every run); "
@@ -164,6 +167,13 @@ PROPS = {
         "level_text": "Partial by nature. Proved: the model has one semantics for both policies; the fixed-size storages of framehop's own code can never change a result (more than 32 chained UNWIND_INFOs are rejected before anything is stored; a compressed pop sequence has at most 8 registers). Measured, not proved: absence of heap events - a counting global allocator armed around every MustNotAllocateDuringUnwind call, for every format, hits and misses, cacheable and generic and expression paths, with the allocating call site from a backtrace; and equality of results with MayAllocateDuringUnwind on the same inputs. scn additionally runs its ground-truth walks under both policies against the model.",
         "level_note": _NOTE + " Whether code calls the allocator is not expressible in an input/output model; gimli's StoreOnStack capacities are third-party (the CFI the harness writes stays within them; a divergence would be reported as policies-disagree).",
         "statement": "Policy-free model; capacity bounds of own fixed-size storage; allocation events and policy agreement by instrumentation.",
+    },
+    "C19": {
+        "lean": ["FH.Props.C19"],
+        "engines": ["feat"],
+        "level_text": "Partial by nature. Proved: the only feature-dependent decision of the model - which unwind-data variant Module::new selects - does not depend on the features for modules offering neither __unwind_info nor .pdata (all 8 subsets; also as a kernel-checked finite table), std never selects anything, and the preference order among the DWARF presentations; the rest of the model has no feature parameter. The selection model is tied to the code for all 8 subsets x 128 section offers through a hook. Established by building and running, not by proof: that each subset builds (incl. no_std), and that a battery of DWARF / frame-pointer histories gives identical answers under all 8 builds and the default in-process build.",
+        "level_note": _NOTE + " 'Builds' is decided by cargo on this target (x86_64 linux with std available); a no_std target is not installed, so 'without std' means the crate compiles with #![no_std] active, not that it links for a bare-metal target.",
+        "statement": "Feature-independence of unwind-data selection for DWARF/fp modules (theorem + table); buildability and behavioural identity of the 8 subsets by build-and-run.",
     },
     "C03": {
         "lean": ["FH.Props.C03"],
